@@ -71,7 +71,15 @@ func gen(t *rapid.T) Script {
 		for j := 0; j < nl; j++ {
 			switch rapid.IntRange(0, 3).Draw(t, "kind") {
 			case 0:
-				v := rapid.SampledFrom([]string{"203.0.113.1", "203.0.113.1, 70.41.3.18", "unknown", "", "::1", " 1.1.1.1 ,2.2.2.2", "attacker"}).Draw(t, "xff")
+				v := rapid.SampledFrom([]string{"203.0.113.1", "203.0.113.1, 70.41.3.18", "unknown", "", "::1", " 1.1.1.1 ,2.2.2.2", "attacker", "long"}).Draw(t, "xff")
+				if v == "long" {
+					// a request that has been through many proxies already (or says so)
+					var hops []string
+					for k := rapid.SampledFrom([]int{15, 31, 32, 33, 64, 100, 300}).Draw(t, "hops"); k > 0; k-- {
+						hops = append(hops, fmt.Sprintf("10.%d.%d.%d", j, k/256, k%256))
+					}
+					v = strings.Join(hops, ", ")
+				}
 				r.Lines = append(r.Lines, [2]string{variant(t, "X-Forwarded-For"), v})
 			case 1:
 				r.Lines = append(r.Lines, [2]string{variant(t, "Forwarded"), rapid.SampledFrom([]string{"for=1.2.3.4;proto=http;host=evil.example", "for=\"[::1]\"", "by=x"}).Draw(t, "fwd")})
